@@ -90,6 +90,39 @@ Proof.
     + apply G. split; [lia|]. now rewrite Nat.sub_0_r.
 Qed.
 
+(* ------------------------------------------------------------------ the dicts the code writes (entries from Gen.v) *)
+Lemma dict_enum_fwd entry (l : list nat) :
+  (forall i x, entry i x = (x, i)) -> dict_enum entry l = combine l (seq 0 (length l)).
+Proof.
+  intros E. unfold dict_enum. rewrite <- (swap_combine (seq 0 (length l)) l). apply map_ext. intros [i x]. now rewrite E.
+Qed.
+Lemma dict_enum_bwd entry (l : list nat) :
+  (forall i x, entry i x = (i, x)) -> dict_enum entry l = combine (seq 0 (length l)) l.
+Proof.
+  intros E. unfold dict_enum. rewrite <- (map_id (combine (seq 0 (length l)) l)) at 2. apply map_ext. intros [i x]. now rewrite E.
+Qed.
+
+(* the dicts of both extractors, as written by the code: m2b sends the i-th enumerated element to i, b2m sends i back *)
+Theorem written_dicts (l : list nat) :
+  NoDup l ->
+  forall x i,
+    (dict_get (dict_enum bc_m2b_vertex_entry l) x = Some i <-> nth_error l i = Some x)
+    /\ (dict_get (dict_enum bc_b2m_vertex_entry l) i = Some x <-> nth_error l i = Some x)
+    /\ (dict_get (dict_enum bc_m2b_face_entry l) x = Some i <-> nth_error l i = Some x)
+    /\ (dict_get (dict_enum bc_b2m_face_entry l) i = Some x <-> nth_error l i = Some x)
+    /\ (dict_get (dict_enum ex_m2b_entry l) x = Some i <-> nth_error l i = Some x)
+    /\ (dict_get (dict_enum ex_b2m_entry l) i = Some x <-> nth_error l i = Some x).
+Proof.
+  intros ND x i.
+  assert (F : dict_get (combine l (seq 0 (length l))) x = Some i <-> nth_error l i = Some x).
+  { rewrite (enumeration_maps_inverse l x i ND). apply (dict_get_enum l i x ND). }
+  assert (B : dict_get (combine (seq 0 (length l)) l) i = Some x <-> nth_error l i = Some x)
+    by apply (dict_get_enum l i x ND).
+  repeat split; intros H;
+    first [ rewrite dict_enum_fwd in * by reflexivity; now apply F
+          | rewrite dict_enum_bwd in * by reflexivity; now apply B ].
+Qed.
+
 (* ------------------------------------------------------------------ the edge indirection *)
 Lemma map_res_ok {A B} (f : A -> res B) l r :
   map_res f l = Ok r -> Forall2 (fun x y => f x = Ok y) l r.
